@@ -96,3 +96,25 @@ Fixpoint wf_scope (s : scope) : bool :=
   | SRange i _ _ => wf_scope i
   | SJoint l => nodup_keys l && forallb (fun p => wf_scope (snd p)) l
   end.
+
+(* ---------------------------------------------------------------- dependency expressions of volatile parameters *)
+(* the constant dictionaries (DictScope roots) a scope is built over *)
+Fixpoint roots (s : scope) : list (list (ident * Q)) :=
+  match s with
+  | SDict vals _ => [vals]
+  | SMapped o _ => roots o
+  | SRange i _ _ => roots i
+  | SJoint l => flat_map (fun p => roots (snd p)) l
+  end.
+
+(* an environment of constants that gives every constant of every root its value (exists iff the roots agree on
+   shared names; e.g. the operand scopes of VolatileValue.operation stem from one instantiation) *)
+Definition env_extends (env : ident -> option Q) (vals : list (ident * Q)) : Prop :=
+  forall k v, lookup vals k = Some v -> env k = Some v.
+Definition env_for (env : ident -> option Q) (s : scope) : Prop :=
+  forall vals, In vals (roots s) -> env_extends env vals.
+
+(* executable form used by the specification oracle (values compared as rationals) *)
+Definition env_extends_b (env : list (ident * Q)) (vals : list (ident * Q)) : bool :=
+  forallb (fun kv => match lookup env (fst kv) with Some w => Qeq_bool w (snd kv) | None => false end) vals.
+Definition env_for_b (env : list (ident * Q)) (s : scope) : bool := forallb (env_extends_b env) (roots s).
